@@ -69,6 +69,12 @@ def values(rng, shape, kind):
         return rng.integers(-40, 41, size=shape).astype(dt)
     if kind == 'int8':
         return rng.integers(-100, 101, size=shape).astype(np.int8)
+    if kind == 'uint8':          # e.g. pixel intensities: sums of two values leave the dtype's range
+        return rng.integers(120, 256, size=shape).astype(np.uint8)
+    if kind == 'bool':
+        return rng.integers(0, 2, size=shape).astype(bool)
+    if kind == 'f32':            # single precision, values exactly representable (multiples of 1/8)
+        return (rng.integers(-64, 65, size=shape) / 8.0).astype(np.float32)
     if kind == 'pos':
         return rng.gamma(2.0, 2.0, size=shape) + 0.01
     if kind == 'posint':
